@@ -18,12 +18,14 @@ import (
 	"strings"
 
 	pubsub "github.com/libp2p/go-libp2p-pubsub"
+	pb "github.com/libp2p/go-libp2p-pubsub/pb"
 	"google.golang.org/protobuf/proto"
 	"google.golang.org/protobuf/types/known/anypb"
 
 	"github.com/shutter-network/shutter/shlib/puredkg"
 	"github.com/shutter-network/shutter/shlib/shcrypto"
 
+	"github.com/shutter-network/rolling-shutter/rolling-shutter/p2p"
 	"github.com/shutter-network/rolling-shutter/rolling-shutter/p2pmsg"
 	"github.com/shutter-network/rolling-shutter/rolling-shutter/shdb"
 
@@ -402,11 +404,14 @@ func Run(cfg Config) (int, error) {
 	if cfg.Replay != "" {
 		return r.replay(ctx)
 	}
-	rounds := 4
+	rounds := 3
 	if cfg.Tier == "thorough" {
 		rounds = 120
 	}
 	rnd := hx.NewRand(cfg.Seed ^ 0xC04)
+	if err := r.combiner(ctx); err != nil {
+		return 2, err
+	}
 	for round := 0; round < rounds && len(res.Violations) == 0; round++ {
 		if err := r.round(ctx, rnd.Fork(), round); err != nil {
 			return 2, err
@@ -449,4 +454,60 @@ func envelope(version string, msg proto.Message, trailing []byte) []byte {
 	a, _ := anypb.New(msg)
 	b, _ := proto.Marshal(&p2pmsg.Envelope{Version: version, Message: a})
 	return append(b, trailing...)
+}
+
+// combiner drives the real ValidatorRegistry.GetCombinedValidator with every sequence of up to four constant
+// validators on one topic (accept, reject, ignore, and a value outside libp2p's three).
+func (r *runner) combiner(ctx context.Context) error {
+	vals := []struct {
+		tok string
+		res pubsub.ValidationResult
+	}{{"a", pubsub.ValidationAccept}, {"r", pubsub.ValidationReject}, {"i", pubsub.ValidationIgnore}, {"u", pubsub.ValidationResult(7)}}
+	probe := &p2pmsg.EonPublicKey{InstanceId: 1, PublicKey: []byte{1}, ActivationBlock: 1, KeyperConfigIndex: 1, Eon: 1}
+	data, err := p2pmsg.Marshal(probe, nil)
+	if err != nil {
+		return err
+	}
+	topic := probe.Topic()
+	var rec func(seq []int)
+	count := 0
+	rec = func(seq []int) {
+		if len(seq) > 0 {
+			m := p2p.VerifNewMessaging()
+			toks := []string{}
+			for _, k := range seq {
+				res := vals[k].res
+				toks = append(toks, vals[k].tok)
+				m.AddValidator(func(context.Context, p2pmsg.Message) (pubsub.ValidationResult, error) { return res, nil }, probe)
+			}
+			got := m.VerifValidate(ctx, &pubsub.Message{Message: &pb.Message{Data: data, Topic: &topic}})
+			name := map[pubsub.ValidationResult]string{pubsub.ValidationAccept: "accept", pubsub.ValidationReject: "reject", pubsub.ValidationIgnore: "ignore"}[got]
+			if name == "" {
+				name = fmt.Sprintf("other(%d)", got)
+			}
+			line := "VAL combine " + strings.Join(toks, ",")
+			r.items = append(r.items, item{line, name})
+			r.res.Distinct(line)
+			r.res.Evaluations++
+			count++
+			allAccept := true
+			for _, k := range seq {
+				if vals[k].tok != "a" {
+					allAccept = false
+				}
+			}
+			if (got == pubsub.ValidationAccept) != allAccept && len(r.res.Violations) == 0 {
+				r.violate("spec", "combined-validator", fmt.Sprintf("validators %s on one topic: combined verdict %s, but a message is to be handled only if every validator accepts", strings.Join(toks, ","), name), []string{line}, nil)
+			}
+		}
+		if len(seq) == 4 {
+			return
+		}
+		for k := range vals {
+			rec(append(append([]int{}, seq...), k))
+		}
+	}
+	rec(nil)
+	r.res.CountN("combined-validator-sequences", count)
+	return nil
 }
